@@ -117,6 +117,17 @@ CLAIMED = {
         "(quick tier executes a seeded sample of the enumerated requests, thorough all).",
    technique="TLA+ definitional oracle + transcription checked by TLC, replay of enumerated requests into the real Context",
    design="4/C11"),
+ "C10": dict(
+   text="spec/Selection.tla defines the answer of every request as the full data filtered by the request's predicate (fully_contained / "
+        "touching range, row selection) and transcribes loader pruning, apply_time_range, per-chunk apply_selection and the "
+        "alignment of several same-kind streams; TLC checks transcription = definition for every on-disk layout (all chunkings) "
+        "and every range of the scope, and the alignment invariant for pairs of layouts (violated by the code as found), and "
+        "prints the expected answers. The harness stores every layout with the real saver and asks the real get_array for every "
+        "enumerated request (both processors, row selections, column projection), also checking that nothing is saved.",
+   note="Trusted: TLC, harness source plugins writing the layouts. Scope: runs of <=4 rows on grid 0..8, <=4 chunks, ranges a<b with "
+        "endpoints 0..9, pairs of layouts for two same-kind types; quick tier executes a seeded sample of layouts.",
+   technique="TLA+ definitional oracle + transcription checked by TLC, replay of enumerated requests into the real Context on real storage",
+   design="4/C10"),
 }
 NOT_BUILT = "decision procedure (TLA+ module + binding) not built yet in this session; see DESIGN.md section 4 for the plan"
 
